@@ -185,6 +185,10 @@ Section Patcher.
       end)))
     end.
 
+  (** processFile: by series kind *)
+  Definition process_file (kind idx : Z) (ms : list pmsg) (s : pst) : res (list pmsg * pst) :=
+    if kind =? SH_RSYNC then process_rsync idx ms s else process_bsdiff idx ms s.
+
   (** skipFile (after repo commit "fix: skipFile follows the series kind announced by the sync
       header"): an rsync series is read as SyncOps up to the end marker; a bsdiff series as
       BsdiffHeader, Controls up to and including the one marked eof, then the end marker *)
@@ -234,7 +238,7 @@ Section Patcher.
         else if wl_skip (sh_file sh) then
           bind (skip_file (sh_type sh) r) (fun r' => run_files n' (idx + 1) r' s touched)
         else
-          bind (if sh_type sh =? SH_RSYNC then process_rsync idx r s else process_bsdiff idx r s)
+          bind (process_file (sh_type sh) idx r s)
                (fun rs => run_files n' (idx + 1) (fst rs) (snd rs) (touched + 1))
       end
     end.
